@@ -299,6 +299,8 @@ def ring_cases():
             "perm": st.permutations(list(range(6))),
             "extra": st.integers(0, 2),
             "periodic": st.booleans(),
+            # dihedrals only: an exactly planar chain (coordinates in a lattice plane: triple product exactly 0.0), trans or cis
+            "planar": st.sampled_from([None, None, None, "trans", "cis"]),
         }
     )
     return st.fixed_dictionaries(d)
@@ -321,6 +323,10 @@ def body_ring(rec, c):
     else:
         # a zig-zag chain with bond angles away from collinear
         mol = np.array([[0, 0, 0], [r, 0.3 * r, 0], [1.4 * r, 1.2 * r, 0.2 * r], [2.2 * r, 1.1 * r, r]]) + 0.25 * r * pts[:4]
+        if c.get("planar"):
+            # boundary values of the angle: 180 degrees (trans) and 0 (cis); the plane is a coordinate plane, so planarity is exact
+            y3 = -r if c["planar"] == "trans" else r
+            mol = np.array([[0.0, r, 0.0], [0.0, 0.0, 0.0], [1.5 * r, 0.0, 0.0], [1.5 * r, y3, 0.0]])
         nat = 4
     ntot = nat + c["extra"]
     Lmin = 2.2 * float(np.ptp(mol, axis=0).max()) + 1.0  # every intra-molecular vector well below L/2
@@ -367,6 +373,10 @@ def body_ring(rec, c):
         rec.check(ok, f"ring:{c['kind']}:{what}", f"periodic={periodic}: {a} vs {b}")
 
     base = calc(pos, vel, box)
+    if c["kind"] == "dihedral" and c.get("planar"):
+        rec.cls("ring:dihedral:exactly-planar-" + c["planar"])
+        want = math.pi if c["planar"] == "trans" else 0.0
+        rec.check(ang_close(base[0], want, 2 * math.pi), "ring:dihedral:planar-value", f"{c['planar']}: got {base[0]} want {want} (mod 2 pi); periodic={periodic}")
     same(base, calc(pos + np.array(c["trans"]), vel, box), "translation")
     same(base, calc(pos, -vel, box), "changes-under-velocity-reversal")
     if periodic:
